@@ -199,6 +199,9 @@ theorem applyOwn_frame (attrsOf : Ref (List (String × Ty)) → List (String × 
     | none => cases f <;> simp [Unchanged]
     | some a =>
       simp only
+      by_cases hal : (!(aliveH o a.stmt.srcKind s && aliveH o a.stmt.tgtKind t)) = true
+      · rw [if_pos hal]; cases f <;> simp [Unchanged]
+      rw [if_neg hal]
       cases connectChecked a.links.src a.stmt.srcMany t s with
       | none => cases f <;> simp [Unchanged]
       | some src' =>
@@ -299,6 +302,9 @@ theorem applyMut_kinds (stmts : List Stmt) (o : HMeta) (μ : Mut) :
       | none => rfl
       | some a =>
         simp only
+        by_cases hal : (!(aliveH o a.stmt.srcKind s && aliveH o a.stmt.tgtKind t)) = true
+        · rw [if_pos hal]
+        rw [if_neg hal]
         cases connectChecked a.links.src a.stmt.srcMany t s with
         | none => rfl
         | some src' =>
